@@ -35,20 +35,7 @@ func isLenMinusOne(idx ssa.Value, of string) bool {
 
 func runErrpred(c *Ctx) {
 	p := c.P
-	errG, _ := p.Arg.Members["errType"].(*ssa.Global)
-	if errG == nil {
-		// resolve by role: the package-level reflect.Type variable initialised from (*error)(nil)
-		for _, m := range p.Arg.Members {
-			if g, ok := m.(*ssa.Global); ok && strings.Contains(core.TypeStr(g.Type()), "reflect.Type") {
-				init := p.Arg.Func("init")
-				core.Instrs(init, func(in ssa.Instruction) {
-					if st, ok := in.(*ssa.Store); ok && st.Addr == ssa.Value(g) && strings.Contains(st.Val.String(), "error") {
-						errG = g
-					}
-				})
-			}
-		}
-	}
+	errG := p.ErrTypeGlobal() // found by its initialiser, whatever it is called
 	if errG == nil {
 		c.R.Undecided("ERRPRED", "global", "(package)", "-", "the package-level error type descriptor was not found")
 		return
